@@ -66,6 +66,9 @@ func main() {
 		os.Exit(2)
 	}
 	mode, comp := os.Args[1], os.Args[2]
+	if mode == "execcase" {
+		mode, comp = "exec", comp+"!case"
+	}
 	c, ok := components[comp]
 	if !ok {
 		names := []string{}
